@@ -465,7 +465,7 @@ def build_system_copy(rt_prog, drv_prog, nworkers, budget, initial, local_max=0)
         raise Inconclusive("driver drv_c12_copy_worker missing")
     for t in range(nworkers):
         task = L.make(MN, "CopyTask", task_id=Int(t, "usize"), local=Opaque("copy-local"), worker=Opaque("worker"),
-                      injector=Opaque("injector"), stealers=Opaque("stealers"), terminator=sysm.root_ref("term"),
+                      injector=Opaque("injector"), stealers=Tup([Opaque("stealer")] * nworkers, name="StealerSlice"), terminator=sysm.root_ref("term"),
                       rt=Opaque("rt"), added_to_remset=Opaque("remset"), traced=Int(0, "usize"), shape_base=addr(0), old_lab=Opaque("lab"), young_lab=Opaque("lab"))
         sysm.add_root("task%d" % t, task)
         sysm.add_thread(worker, [sysm.root_ref("task%d" % t), Int(t, "usize")])
@@ -514,7 +514,7 @@ def build_system_marking(rt_prog, drv_prog, nworkers, budget, initial):
     for t in range(nworkers):
         res = L.make(MK, "MarkingResult", marked_bytes=Int(0, "usize"), live_pages=Opaque("bitset"))
         task = L.make(MK, "MarkingTask", task_id=Int(t, "usize"), local=Opaque("segment"), worker=Opaque("worker"),
-                      injector=Opaque("injector"), stealers=Opaque("stealers"), terminator=sysm.root_ref("term"),
+                      injector=Opaque("injector"), stealers=Tup([Opaque("stealer")] * nworkers, name="StealerSlice"), terminator=sysm.root_ref("term"),
                       heap_region=Opaque("region"), perm_region=Opaque("region"), page_size_bits=Int(12, "u32"),
                       marked_since_share=Int(0, "usize"), shape_base=addr(0), result=res)
         sysm.add_root("task%d" % t, task)
